@@ -338,10 +338,26 @@ def run(repo, rep):
             all(k.arg == "dtype" and norm(k.value) in ("np.uint8", "numpy.uint8") for k in v.keywords) and len(v.args) == 1
     rep.check(ok, "C17-f", site_f, f"values = the whole `{pay}` buffer viewed as uint8", "; ".join(norm(x) for x in vals) or "no assignment")
     rep.floor("C17-f", 2)
+    # the 16 MiB hardware limit is checked on the emitter's size in bytes: one word per cmd0, two per cmd1
+    rep.clause("C17-i", "the stream size the hardware-limit check sees counts words, not commands (a cmd1 is two words)")
+    gen_ = repo.mod("register_command_stream_generator")
+    it_s = Interp(repo, gen_)
+    for label, stream, want in (("three cmd0", [(1,), (2,), (3,)], 12), ("mixed cmd0 / cmd1", [(1,), (2, 3), (4,), (5, 6)], 24), ("empty", [], 0)):
+        ps_ = list(it_s.run("CommandStreamEmitter.size_in_bytes", lambda stream=stream: ([AObj("self", {"cmd_stream": AList(list(stream))}, cls="CommandStreamEmitter")], {})))
+        ok = len(ps_) == 1 and ps_[0].kind == "return" and ps_[0].value == want
+        rep.check(ok, "C17-i", "ethosu/vela/register_command_stream_generator.py:CommandStreamEmitter.size_in_bytes", f"size of a stream of {label} is {want} bytes",
+                  f"returns {[p_.value for p_ in ps_]}: streams of up to twice the hardware limit pass the 16 MiB check and are framed")
+    gcs = gen_.func("generate_command_stream")
+    lim = [n_ for n_ in ast.walk(gcs) if isinstance(n_, ast.If) and "size_in_bytes" in str(norm(n_.test))]
+    rep.check(len(lim) == 1 and any(isinstance(x, ast.Raise) for x in ast.walk(lim[0])), "C17-i", "ethosu/vela/register_command_stream_generator.py:generate_command_stream",
+              "a stream above the hardware limit raises", str(norm(lim[0].test)) if lim else "check not found")
     rep.clause("C17-h", "the accelerator named through the public API maps to the configuration of the same name (row-for-row map) [rule shared with C15-c]")
     from . import c15
 
     rep.run_borrowed(c15, {'C15-c': 'C17-h'}, repo)
+    from . import c18
+
+    rep.run_borrowed(c18, {'C18-c': 'C17-h'}, repo)
 
 
 def _is_u65(p):
